@@ -1,12 +1,16 @@
 package tracechk
 
 import (
+	"context"
 	"fmt"
+	"os"
+	"path/filepath"
 	"reflect"
 	"sort"
 	"strings"
 	"testing"
 
+	"github.com/sarchlab/akita/v5/datarecording"
 	"github.com/sarchlab/akita/v5/timing"
 	"github.com/sarchlab/akita/v5/tracing"
 	"pgregory.net/rapid"
@@ -150,9 +154,22 @@ func expectedLoc(ev c36Ev) string {
 	return name
 }
 
-func judge36(c c36Case) (vs []c34Verdict, st c36Stats) {
-	clk := &fakeClock{}
+// backend36 is where the DBTracer writes: the recorder handed to NewDBTracer
+// and a function that returns the recorded rows after Terminate.
+type backend36 struct {
+	rec  datarecording.DataRecorder
+	rows func() (map[string][]capRow, []string)
+}
+
+func capBackend() backend36 {
 	rec := newCapRec()
+	return backend36{rec: rec, rows: func() (map[string][]capRow, []string) { return rec.rows, rec.bad }}
+}
+
+func judge36(c c36Case) (vs []c34Verdict, st c36Stats) { return judge36On(c, capBackend()) }
+
+func judge36On(c c36Case, be backend36) (vs []c34Verdict, st c36Stats) {
+	clk := &fakeClock{}
 	var tracer *tracing.DBTracer
 	doms := []*fakeDomain{}
 	fail := func(sig, format string, a ...any) { vs = append(vs, c34Verdict{sig, fmt.Sprintf(format, a...)}) }
@@ -171,7 +188,7 @@ func judge36(c c36Case) (vs []c34Verdict, st c36Stats) {
 	var cur c36Win
 
 	ok, psig, pmsg := kit.Guard(func() {
-		tracer = tracing.NewDBTracer(clk, rec)
+		tracer = tracing.NewDBTracer(clk, be.rec)
 		for _, n := range c36DomNames {
 			d := newFakeDomain(n, clk)
 			tracing.CollectTrace(d, tracer)
@@ -274,13 +291,21 @@ func judge36(c c36Case) (vs []c34Verdict, st c36Stats) {
 		wins = append(wins, cur)
 	}
 	st.windows = len(wins)
-	for _, b := range rec.bad {
-		fail("recorder-misuse", "%s", b)
+	var rows map[string][]capRow
+	ok, psig, pmsg = kit.Guard(func() {
+		var bad []string
+		rows, bad = be.rows()
+		for _, b := range bad {
+			fail("recorder-misuse", "%s", b)
+		}
+	})
+	if !ok {
+		return []c34Verdict{{psig, pmsg}}, st
 	}
 
 	// ---- trace table ----
 	rowsByID := map[uint64][]capRow{}
-	for _, w := range rec.rows["trace"] {
+	for _, w := range rows["trace"] {
 		rowsByID[w.u("ID")] = append(rowsByID[w.u("ID")], w)
 	}
 	recorded := map[uint64]bool{}
@@ -399,7 +424,7 @@ func judge36(c c36Case) (vs []c34Verdict, st c36Stats) {
 	// ---- tag table ----
 	annKey := func(a c36Ann) string { return fmt.Sprintf("%d|%d|%d|%s|%s", a.ID, a.TaskID, a.T, a.Kind, a.What) }
 	tagRows := map[uint64][]c36Ann{}
-	for _, w := range rec.rows["tag"] {
+	for _, w := range rows["tag"] {
 		a := c36Ann{ID: w.u("ID"), TaskID: w.u("TaskID"), T: uint64(w.f("Time")), What: w.s("What")}
 		if float64(a.T) != w.f("Time") {
 			fail("annotation-fields", "tag row with non-integral time %v", w)
@@ -407,7 +432,7 @@ func judge36(c c36Case) (vs []c34Verdict, st c36Stats) {
 		tagRows[a.TaskID] = append(tagRows[a.TaskID], a)
 	}
 	msRows := map[uint64][]c36Ann{}
-	for _, w := range rec.rows["milestone"] {
+	for _, w := range rows["milestone"] {
 		a := c36Ann{ID: w.u("ID"), TaskID: w.u("TaskID"), T: uint64(w.f("Time")), Kind: w.s("Kind"), What: w.s("What")}
 		if float64(a.T) != w.f("Time") {
 			fail("annotation-fields", "milestone row with non-integral time %v", w)
@@ -498,7 +523,7 @@ func judge36(c c36Case) (vs []c34Verdict, st c36Stats) {
 	// were called redundantly: what a "window" is then is not stated) ----
 	if !st.redundant {
 		var got, want []string
-		for _, w := range rec.rows["daisen$segments"] {
+		for _, w := range rows["daisen$segments"] {
 			got = append(got, fmt.Sprintf("%.0f-%.0f", w.f("StartTime"), w.f("EndTime")))
 		}
 		for _, w := range wins {
@@ -835,4 +860,96 @@ func TestC36Known_GhostEnd(t *testing.T) {
 		{Op: "on", T: 0},
 		{Op: "end", T: 0, ID: 9001},
 	}, TermT: 0}, "tag for id 9001, StartTracing, EndTask(9001); the task never starts")
+}
+
+// ---------------------------------------------------------------------------
+// sample through the real SQLite recorder: same histories, same judgement, rows
+// read back from the database file with datarecording.NewReader (which resolves
+// the interned location ids).
+// ---------------------------------------------------------------------------
+
+type sqlTask struct {
+	ID, ParentID       uint64
+	Kind, What         string
+	Location           string `akita_data:"location"`
+	StartTime, EndTime float64
+}
+type sqlMilestone struct {
+	ID, TaskID uint64
+	Time       float64
+	Kind, What string
+}
+type sqlTag struct {
+	ID, TaskID uint64
+	Time       float64
+	What       string
+}
+type sqlSegment struct{ StartTime, EndTime float64 }
+
+func sqliteBackend(path string) backend36 {
+	rec := datarecording.NewDataRecorder(path)
+	return backend36{rec: rec, rows: func() (map[string][]capRow, []string) {
+		if err := rec.Close(); err != nil {
+			return nil, []string{"DataRecorder.Close: " + err.Error()}
+		}
+		rd := datarecording.NewReader(path + ".sqlite3")
+		defer rd.Close()
+		conv := newCapRec()
+		var bad []string
+		for name, sample := range map[string]any{"trace": sqlTask{}, "milestone": sqlMilestone{}, "tag": sqlTag{}, "daisen$segments": sqlSegment{}} {
+			rd.MapTable(name, sample)
+			conv.CreateTable(name, sample)
+			res, _, err := rd.Query(context.Background(), name, datarecording.QueryParams{})
+			if err != nil {
+				bad = append(bad, fmt.Sprintf("reading table %s: %v", name, err))
+				continue
+			}
+			for _, r := range res {
+				conv.InsertData(name, r)
+			}
+		}
+		return conv.rows, append(bad, conv.bad...)
+	}}
+}
+
+func TestC36SQLite(t *testing.T) {
+	s := kit.Begin(t, "C36", "sqlite",
+		"the same generated histories as sub-check dbtracer, DBTracer writing through datarecording.NewDataRecorder into a SQLite file that is read back with datarecording.NewReader; same model oracle. Non-trivial: as dbtracer")
+	defer s.End()
+	s.Assume("trusts datarecording.NewReader (incl. its location-id resolution) to read the file back")
+	dir := os.Getenv("VERIF_WORK")
+	if dir == "" {
+		dir = t.TempDir()
+	}
+	n := 0
+	run := func(f kit.Failer, c c36Case) {
+		n++
+		path := filepath.Join(dir, fmt.Sprintf("c36-%d-%d", os.Getpid(), n))
+		defer os.Remove(path + ".sqlite3")
+		vs, st := judge36On(c, sqliteBackend(path))
+		for _, v := range vs {
+			s.Fail(f, c, v.sig, "%s", v.msg)
+		}
+		nt, cl := c36Classes(c, st)
+		s.Note(c, nt, cl...)
+	}
+	var c c36Case
+	if ok, err := kit.LoadReplay("C36", "sqlite", &c); ok {
+		if err != nil {
+			t.Fatal(err)
+		}
+		run(t, c)
+		return
+	} else if kit.ReplayMode() {
+		t.Skip()
+	}
+	_, k1 := s.IsKnown(sigPlaceholder)
+	_, k2 := s.IsKnown(sigGhost)
+	kit.SetChecks(30, 150)
+	rapid.Check(t, func(rt *rapid.T) {
+		steer := (k1 || k2) && rapid.IntRange(0, 3).Draw(rt, "steer") != 0
+		c := genC36(rt, steer)
+		s.Excluded(len(c.Steer))
+		run(rt, c)
+	})
 }
